@@ -30,7 +30,7 @@ func runC08(e *Env) {
 	r.Rule("C08.R2", "locks+paths", "observation state under its mutex, written only when accepted", 5)
 	r.Rule("C08.R3", "paths", "callback only on the accepted edge", 1)
 	r.Rule("C08.R4", "paths", "registration cleanup and success codes", 3)
-	r.Rule("C08.R5", "paths", "Cancel removes before deregistering", 3)
+	r.Rule("C08.R5", "paths", "Cancel removes before deregistering and never re-registers; routing by whole-token hash", 5)
 	if e.want("C08.R1") {
 		c08Predicate(e)
 	}
@@ -162,6 +162,31 @@ func runC08(e *Env) {
 				}
 			}
 			e.R.Check(okEarly, "C08.R5", "net/observation.Observation.Cancel:idempotent", e.fpos(f), "if the entry was already gone Cancel returns without sending anything", "a second Cancel sends another deregistration")
+		}
+		// Cancel never puts the observation back: after the removal nothing in Cancel stores into the observation table
+		if f := e.fn("C08.R5", "net/observation.Observation.Cancel"); f != nil {
+			bad := ""
+			for _, g := range core.WithAnon(f) {
+				for _, c := range core.Calls(g, func(n string, ci ssa.CallInstruction) bool {
+					_, isStore := storingMethods[n]
+					return (isStore || n == "pkg/sync.Map.ReplaceWithFunc") && strings.HasSuffix(tableOf(ci), ".observations")
+				}) {
+					bad = "Cancel stores into the observation table at " + e.pos(c.(ssa.Instruction)) + ": after Cancel returned (with an error) notifications would still reach the callback"
+				}
+			}
+			e.R.Check(bad == "", "C08.R5", "net/observation.Observation.Cancel:never-re-registers", e.fpos(f), "no path of Cancel registers the observation again", bad)
+		}
+		// observations are keyed by a checksum of the whole token (shared with C03.R3)
+		if f := e.fn("C08.R5", "message.Token.Hash"); f != nil {
+			ok, n := true, 0
+			for _, ret := range core.ReturnsOf(f) {
+				n++
+				c, isCall := core.RetVal(ret, 0).(*ssa.Call)
+				if !isCall || !strings.HasPrefix(core.CalleeName(c), "hash/") || core.Unwrap(core.Arg(c, 0)) != ssa.Value(f.Params[0]) {
+					ok = false
+				}
+			}
+			e.R.Check(ok && n > 0, "C08.R5", "message.Token.Hash:checksum-of-whole-token", e.fpos(f), "every return is a hash/* checksum of the whole token (length included)", "Token.Hash has a path that does not checksum the whole token: observations with different tokens can share a table key and receive each other's notifications")
 		}
 		if f := e.fn("C08.R5", "net/observation.Handler.Handle"); f != nil && len(f.Params) == 3 {
 			ok := false
